@@ -146,6 +146,7 @@ type builder struct {
 func (b *builder) shared() *task {
 	if b.buildshared == nil { // lazily-initialize
 		b.buildshared = &task{done: make(chan unit)}
+		verifEvent("newtask", b, nil)
 	}
 	return b.buildshared
 }
@@ -3207,6 +3208,7 @@ func (b *builder) buildFunction(fn *Function) {
 		if fn.Prog.mode&LogSource != 0 {
 			defer logStack("build %s @ %s", fn, fn.Prog.Fset.Position(fn.pos))()
 		}
+		verifEvent("buildfn", b, fn)
 		fn.build(b, fn)
 		fn.done()
 	}
@@ -3484,7 +3486,9 @@ func (p *Package) build() {
 	}
 
 	b := builder{fns: p.created}
+	verifPkg("pkgbuild_begin", &b, p)
 	b.iterate()
+	verifPkg("pkgbuild_end", &b, p)
 
 	// We no longer need transient information: ASTs or go/types deductions.
 	p.info = nil
